@@ -8,6 +8,7 @@ import (
 	"errors"
 	"fmt"
 	"math/big"
+	"strings"
 
 	cose "github.com/veraison/go-cose"
 
@@ -546,6 +547,60 @@ func runC16(c *Ctx) {
 				}
 				rejects[fmt.Sprintf("valid-preceded-by-%d-zero-fields", k)] = append(make([]byte, k*n), good...)
 			}
+			// the valid signature still inside the length framing of the place it was copied from: a CBOR byte
+			// string head of every width (and tagged), a DER OCTET STRING / BIT STRING / SEQUENCE head, 1-, 2-,
+			// 4- and 8-octet big- and little-endian length prefixes (SSH, TLS, protobuf-like), the same as
+			// trailers, and each half framed on its own
+			{
+				L := 2 * n
+				be := func(w int, v int) []byte {
+					b := make([]byte, w)
+					for i := w - 1; i >= 0; i-- {
+						b[i] = byte(v)
+						v >>= 8
+					}
+					return b
+				}
+				le := func(w int, v int) []byte {
+					b := be(w, v)
+					for i, j := 0, len(b)-1; i < j; i, j = i+1, j-1 {
+						b[i], b[j] = b[j], b[i]
+					}
+					return b
+				}
+				frames := map[string][]byte{
+					"cbor-bstr-head-2":     append([]byte{0x58}, be(1, L)...),
+					"cbor-bstr-head-3":     append([]byte{0x59}, be(2, L)...),
+					"cbor-bstr-head-5":     append([]byte{0x5a}, be(4, L)...),
+					"cbor-bstr-head-9":     append([]byte{0x5b}, be(8, L)...),
+					"cbor-tstr-head-2":     append([]byte{0x78}, be(1, L)...),
+					"cbor-tag24-bstr":      append([]byte{0xd8, 0x18, 0x58}, be(1, L)...),
+					"cbor-array1-bstr":     append([]byte{0x81, 0x58}, be(1, L)...),
+					"cbor-indefinite-bstr": append([]byte{0x5f, 0x58}, be(1, L)...),
+					"der-octet-string":     append([]byte{0x04}, derLen(L)...),
+					"der-bit-string":       append(append([]byte{0x03}, derLen(L+1)...), 0),
+					"der-sequence":         append([]byte{0x30}, derLen(L)...),
+					"len-1":                be(1, L),
+					"len-2-be":             be(2, L),
+					"len-4-be":             be(4, L),
+					"len-8-be":             be(8, L),
+					"len-2-le":             le(2, L),
+					"len-4-le":             le(4, L),
+					"len-n-1":              be(1, n),
+				}
+				for fname, head := range frames {
+					rejects["framed-"+fname] = append(append([]byte{}, head...), good...)
+					rejects["trailer-"+fname] = append(append([]byte{}, good...), head...)
+				}
+				rejects["framed-cbor-indefinite-bstr"] = append(rejects["framed-cbor-indefinite-bstr"], 0xff)
+				half := func(head []byte) []byte {
+					return append(append(append(append([]byte{}, head...), good[:n]...), head...), good[n:]...)
+				}
+				rejects["halves-framed-cbor-bstr"] = half(append([]byte{0x58}, be(1, n)...))
+				rejects["halves-framed-der-integer"] = append(append([]byte{0x30}, derLen(2*(n+len(derLen(n))+1))...), half(append([]byte{0x02}, derLen(n)...))...)
+				rejects["halves-framed-len-2"] = half(be(2, n))
+				rejects["halves-framed-len-4"] = half(be(4, n))
+			}
 			// (r, n-s) is a different, valid signature: must be accepted
 			alt := refcrypto.EncodeRS(cv, sg.r, new(big.Int).Sub(order, sg.s))
 			if e := verify(alt); e != nil {
@@ -565,6 +620,9 @@ func runC16(c *Ctx) {
 				mal := name
 				if len(name) > 7 && name[:7] == "length-" {
 					mal = "length-class"
+				}
+				if strings.HasPrefix(name, "framed-") || strings.HasPrefix(name, "trailer-") || strings.HasPrefix(name, "halves-framed-") {
+					mal = "length-framing"
 				}
 				rec.Class(fmt.Sprintf("%s/verifier/%s/%s", cv.Params().Name, sg.cls, mal))
 				// the oracle: valid iff exactly 2n bytes holding an (r,s) the stdlib accepts
@@ -667,3 +725,15 @@ func runC16(c *Ctx) {
 
 // wrappedCurve is an elliptic.Curve of another Go type with the same parameters.
 type wrappedCurve struct{ elliptic.Curve }
+
+// derLen is the DER encoding of a length.
+func derLen(l int) []byte {
+	switch {
+	case l < 0x80:
+		return []byte{byte(l)}
+	case l < 0x100:
+		return []byte{0x81, byte(l)}
+	default:
+		return []byte{0x82, byte(l >> 8), byte(l)}
+	}
+}
